@@ -1,5 +1,9 @@
 use std::fmt::Debug;
 use std::fmt::Formatter;
+use std::future::Future;
+use std::sync::Mutex;
+use std::time::Duration;
+use std::time::Instant;
 
 pub enum End {
     Local,
@@ -29,6 +33,43 @@ impl Debug for Result {
         match self {
             Self::Close(arg0, arg1) => write!(f, "{:?}*-{:?} closed", arg0, arg1),
             Self::Err(arg0, arg1, arg2) => write!(f, "relay {:?}-{:?} failed; error={}", arg0, arg1, arg2),
+        }
+    }
+}
+
+/// When a direction of a flow last passed something on.
+pub struct Activity(Mutex<Instant>);
+
+impl Default for Activity {
+    fn default() -> Self {
+        Self(Mutex::new(Instant::now()))
+    }
+}
+
+impl Activity {
+    pub fn touch(&self) {
+        *self.0.lock().unwrap_or_else(|e| e.into_inner()) = Instant::now();
+    }
+
+    pub fn idle(&self) -> Duration {
+        self.0.lock().unwrap_or_else(|e| e.into_inner()).elapsed()
+    }
+}
+
+/// One side of a flow has closed and its data and end-of-stream have been passed on. The other direction, `other`, may
+/// go on for as long as it makes progress - a peer that half-closed may still be receiving its answer - and is given up
+/// once it has ended by itself or has passed nothing on for `grace`.
+pub async fn wind_down<F: Future>(other: F, activity: &Activity, grace: Duration) {
+    tokio::pin!(other);
+    activity.touch();
+    loop {
+        let left = grace.saturating_sub(activity.idle());
+        if left.is_zero() {
+            return;
+        }
+        tokio::select! {
+            _ = &mut other => return,
+            _ = tokio::time::sleep(left) => {}
         }
     }
 }
